@@ -12,7 +12,7 @@ RULE = ("Vectors are int lists over Z/2^k; every result is compared as (coeffici
         "Non-trivial = dimensions differ, or both operands non-zero, or a non-empty selection.")
 ASSUMPTIONS = ["slices are generated in range with positive step (a negative step may be refused with ValueError; "
                "zero-extension by a stop beyond the end is crysp-specific and not generated)",
-               "pack(a,'>L') is only checked for dimension 1", "index lists for writes have no repeats",
+               "pack(a,'>L') is checked by value for dimension 1 only; for longer vectors it must be a rearrangement of the little-endian bytes and leave the vector untouched", "index lists for writes have no repeats",
                "pack lays each coefficient out over ceil(k/8) bytes (the behaviour of the pinned tree for ring sizes that are not a multiple of 8)"]
 
 BIN = {"+": operator.add, "-": operator.sub, "^": operator.xor, "&": operator.and_, "|": operator.or_}
@@ -299,7 +299,13 @@ def check_chunk(c):
         eq(guard(pack, A, "<L"), exp, "pack('<L')")
         if len(a) == 1:
             eq(guard(pack, A, ">L"), a[0].to_bytes(nb, "big"), "pack('>L',dim1)")
+        else:
+            # for longer vectors only what every reading of "big-endian" agrees on: the same number of bytes, the same
+            # multiset of bytes, and (below) an untouched operand
+            r = guard(pack, A, ">L")
+            expect(isinstance(r, bytes) and sorted(r) == sorted(exp), "pack('>L'):not-a-rearrangement-of-the-little-endian-bytes", len(exp), repr(r)[:60])
         is_poly(A, a, k, "pack:operand-changed")
+        eq(guard(pack, A), exp, "pack:second-call")
     elif what == "bytes":
         s = bytes(x & 0xff for x in a)
         P = guard(Poly, s)
@@ -391,6 +397,7 @@ def check_history(c):
         elif kind == "pack":
             if k == 0:
                 continue
+            attempt(pack, A, ">L")         # an observer in the other byte order first (its value is not judged here)
             eq(guard(pack, A), b"".join(x.to_bytes((k + 7) // 8, "little") for x in cur), "history:pack")
         elif kind == "read":
             sl = slice(*clamp(op[1]))
